@@ -4,3 +4,4 @@ pub mod hist;
 pub mod mondir;
 pub mod report;
 pub mod rng;
+pub mod systwin;
